@@ -13,9 +13,10 @@ CONSTANTS Keys = {"k0", "k1"}
           MaxSeq = 1
           MaxOps = 3
           MaxRounds = 0
+          TrackW0 = FALSE
           UseRun = TRUE
           Timely = TRUE
           Devs = {}
-INVARIANTS TypeOK NewestWins RoutingConsistent AllServed Healed ErrorsReported SeqRoundMatches NeverExpires
+INVARIANTS TypeOK NewestWins RoutingConsistent AllServed Healed ErrorsReported NeverExpires
 PROPERTIES RepubOnlyRefreshes SeqMonotone BadUntouched ExitedQuiet
 CHECK_DEADLOCK FALSE
